@@ -7,6 +7,7 @@ import (
 	"os"
 	"path/filepath"
 	"runtime/debug"
+	"runtime/pprof"
 	"sort"
 	"strings"
 	"time"
@@ -88,10 +89,16 @@ func main() {
 		replay   = flag.String("replay", "", "replay file: re-evaluate and print the obligations it names")
 		manifest = flag.Bool("manifest", false, "print MANIFEST.json generated from the property table")
 	)
+	cpuprof := flag.String("cpuprofile", "", "write cpu profile")
 	ov := overlayFlag{}
 	flag.Var(ov, "overlay", "file=replacement (repeatable)")
 	flag.Parse()
 	registerAll()
+	if *cpuprof != "" {
+		f, _ := os.Create(*cpuprof)
+		pprof.StartCPUProfile(f)
+		defer pprof.StopCPUProfile()
+	}
 
 	if *manifest {
 		emitManifest()
@@ -127,7 +134,9 @@ func main() {
 		}
 		overlay[f] = b
 	}
-	os.Exit(runCheck(*prop, *rulesF, *tier, *repo, *verif, *tags, *goarch, overlay, !*noEvid, *verbose, *jsonOut, *replay))
+	code := runCheck(*prop, *rulesF, *tier, *repo, *verif, *tags, *goarch, overlay, !*noEvid, *verbose, *jsonOut, *replay)
+	pprof.StopCPUProfile()
+	os.Exit(code)
 }
 
 type configResult struct {
